@@ -33,15 +33,22 @@ import (
 //   mkgauge <owner> <perpetual> <lockDenom> <durSeconds> <c0,c1> <start> <numEpochs>
 //   addgauge <owner> <gaugeId> <c0,c1>
 //   mkstream <c0,c1> <g:w,...|-> <start> <epochId> <numEpochs> | term <id> | replace <id> <g:w,...>
-// Harness-only lines (executed on the real lockup module, not shown to the model; the resulting lock
-// table is handed to the model by a `locks` line): lock <owner> <denom> <amt> <dur>, unlock <owner> <lockId>;
-// xferowner <r> <newOwner>: real MsgTransferOwnership (on success the model gets a `rollapp` line)
-// Addresses: 0..na-1 actors, 100 streamer module, 101 incentives module, 102 lockup module (blocked).
+// Harness-only lines (executed on the real lockup / rollapp module; the model answers them with the constant
+// observation `harness-only`; the resulting lock table is handed to the model by a `locks` line):
+// lock <owner> <denom> <amt> <dur>, unlock <owner> <lockId>;
+// xferowner <r> <newOwner>: real MsgTransferOwnership (on success the model gets a `rollapp` line).
+// They are part of ops.txt, so a replay of ops.txt (C12's replicas) executes the real messages; the `locks`
+// line and the `rollapp` line that follow them in a file are derived again, never taken from the file.
+// Addresses: 0..na-1 actors, 100 streamer module, 101 incentives module, 102 lockup module (blocked),
+// 200.. fresh addresses: deterministic (Actor(n)), never funded, WITHOUT an x/auth account until a payout
+// creates one (C12: account numbers are handed out in payment order).  Their reward balances are printed
+// after the fixed ones (ascending address, non-zero only).
 // Times: seconds since BaseTime + c15T0; 0 is the zero time.  Epoch ids: 0 day, 1 hour, 2 week.
 
 const c15T0 = 1000000
 const c15ND = 2
 const c15NA = 6
+const c15Fresh0 = 200 // first fresh (account-less) address
 
 var c15Reward = []string{"rwa", "rwb"}
 var c15Epochs = []string{"day", "hour", "week"}
@@ -105,6 +112,29 @@ type c15World struct {
 	f      *Fix
 	halted bool
 	pay    *c15PayRec // payouts of the incentives module account seen during the running block op
+	fresh  []int      // fresh addresses (>= c15Fresh0) that became rollapp owners in this trace, ascending
+}
+
+func (w *c15World) addFresh(a int) {
+	if a < c15Fresh0 {
+		return
+	}
+	for _, x := range w.fresh {
+		if x == a {
+			return
+		}
+	}
+	w.fresh = append(w.fresh, a)
+	sort.Ints(w.fresh)
+}
+
+// accts: every address that may legitimately gain reward coins in a block (actors + fresh owners)
+func (w *c15World) accts() []int {
+	out := []int{}
+	for a := 0; a < c15NA; a++ {
+		out = append(out, a)
+	}
+	return append(out, w.fresh...)
 }
 
 // c15Batch is one call of x/incentives Distribute as seen from the bank: all gauges are updated first,
@@ -159,6 +189,8 @@ type c15Trace struct {
 	kinds     []string  // op-kind/outcome sequence (class key)
 	accepted  bool
 	lastLocks string
+	skipLine  string          // the `rollapp` line emitted by a successful xferowner (skipped when a file repeats it)
+	noAcct    map[string]bool // fresh addresses (bech32) that had no x/auth account before the running op
 	// facts about the trace used to name what fails
 	everUnsorted   bool
 	midEpochJoin   bool
@@ -313,6 +345,11 @@ func (w *c15World) obs() string {
 	bp := []string{}
 	for _, a := range []int{0, 1, 2, 3, 4, 5, 100, 101} {
 		bp = append(bp, fmt.Sprintf("%d:%s", a, c15ShowCoins(f.App.BankKeeper.GetAllBalances(f.Ctx, c15Addr(a)))))
+	}
+	for _, a := range w.fresh {
+		if c := c15Only(f.App.BankKeeper.GetAllBalances(f.Ctx, c15Addr(a))); !c.Empty() {
+			bp = append(bp, fmt.Sprintf("%d:%s", a, c15ShowCoins(c)))
+		}
 	}
 	return fmt.Sprintf("t=%d it=%d E=%s P=%s G=[%s] S=[%s] U=%s A=%s F=%s B=[%s]",
 		c15Time(f), sk.GetParams(f.Ctx).MaxIterationsPerBlock, strings.Join(ep, ","), strings.Join(pp, ","),
@@ -482,7 +519,7 @@ func (w *c15World) snap() c15Snap {
 	for _, g := range f.App.IncentivesKeeper.GetActiveGauges(f.Ctx) {
 		s.gActive[g.Id] = true
 	}
-	for _, a := range []int{0, 1, 2, 3, 4, 5, 100, 101, 102} {
+	for _, a := range append([]int{0, 1, 2, 3, 4, 5, 100, 101, 102}, w.fresh...) {
 		s.bal[a] = c15Only(f.App.BankKeeper.GetAllBalances(f.Ctx, c15Addr(a)))
 	}
 	for _, id := range c15Epochs {
@@ -517,8 +554,26 @@ func (t *c15Trace) exec(line string) bool {
 	if len(fl) == 0 || fl[0] == "locks" || fl[0] == "reset" || (fl[0] == "rollapp" && len(fl) > 2 && fl[2] == "102") {
 		return true // `locks` lines are derived from the real lockup module, never taken from a file
 	}
+	if line == t.skipLine {
+		t.skipLine = ""
+		return true // the `rollapp` line a successful xferowner just before it has already produced
+	}
+	t.skipLine = ""
 	harnessOnly := fl[0] == "lock" || fl[0] == "unlock" || fl[0] == "xferowner"
 	t.lines = append(t.lines, line)
+	if (fl[0] == "rollapp" || fl[0] == "xferowner") && len(fl) > 2 {
+		if a, err := strconv.Atoi(fl[2]); err == nil {
+			t.w.addFresh(a)
+			t.sh.addFresh(a)
+		}
+	}
+	// fresh addresses without an x/auth account before the op (a payout creates the account)
+	t.noAcct = map[string]bool{}
+	for _, a := range t.w.fresh {
+		if !t.w.f.App.AccountKeeper.HasAccount(t.w.f.Ctx, c15Addr(a)) {
+			t.noAcct[c15Addr(a).String()] = true
+		}
+	}
 	pre := t.w.snap()
 	preLocks, _ := t.w.f.App.LockupKeeper.GetPeriodLocks(t.w.f.Ctx)
 	preRollapps := t.w.f.App.RollappKeeper.GetAllRollapps(t.w.f.Ctx)
@@ -544,13 +599,18 @@ func (t *c15Trace) exec(line string) bool {
 			r.Hit("shadow/diverged-outcome")
 		}
 	}
-	if !harnessOnly {
-		switch {
-		case strings.HasPrefix(class, "halt"):
-			r.Emit(line, class)
-		default:
-			r.Emit(line, class+" | "+t.w.obs())
+	switch {
+	case harnessOnly:
+		// not a model op: the driver answers with the same constant.  The outcome is compared across
+		// replicas through the digest file (and shows in the `locks` / `rollapp` line that follows)
+		if digestOut != nil {
+			fmt.Fprintf(digestOut, "c15 %s -> %s\n", line, class)
 		}
+		r.Emit(line, "harness-only")
+	case strings.HasPrefix(class, "halt"):
+		r.Emit(line, class)
+	default:
+		r.Emit(line, class+" | "+t.w.obs())
 	}
 	if strings.HasPrefix(class, "halt") {
 		t.onHalt(fl[0], class, err)
@@ -561,7 +621,11 @@ func (t *c15Trace) exec(line string) bool {
 		ra, _ := t.w.f.App.RollappKeeper.GetRollapp(t.w.f.Ctx, c15RollappID(func() int { v, _ := strconv.Atoi(fl[1]); return v }()))
 		rl := fmt.Sprintf("rollapp %s %s %s", fl[1], fl[2], c15b(ra.Launched))
 		t.lines = append(t.lines, rl)
+		t.skipLine = rl
 		r.Emit(rl, "ok | "+t.w.obs())
+		if n, _ := strconv.Atoi(fl[2]); n >= c15Fresh0 {
+			r.Hit("rollapp-owner-fresh")
+		}
 		if fl[2] == "102" {
 			t.blockedOwner = true
 			r.Hit("rollapp-owner-blocked")
@@ -801,7 +865,8 @@ func (t *c15Trace) monitors(fl []string, class string, pre c15Snap, preLocks []l
 			r.Violate("C15/conservation/streamer-balance-grows-in-block", fmt.Sprintf("before %s after %s", pre.bal[100], post.bal[100]), t.replay()...)
 		}
 		gain := map[int]sdk.Coins{}
-		for a := 0; a < c15NA; a++ {
+		accts := t.w.accts()
+		for _, a := range accts {
 			if !post.bal[a].IsAllGTE(pre.bal[a]) {
 				r.Violate("C15/recipients_legit/account-debited-by-block", fmt.Sprintf("actor %d before %s after %s", a, pre.bal[a], post.bal[a]), t.replay()...)
 				continue
@@ -831,9 +896,12 @@ func (t *c15Trace) monitors(fl []string, class string, pre c15Snap, preLocks []l
 		}
 		// portfolio of qualifying locks per actor (for the proportionality check)
 		port := map[int]string{}
-		for a := 0; a < c15NA; a++ {
+		for _, a := range accts {
 			if !gain[a].Empty() {
 				r.Hit("payout")
+				if a >= c15Fresh0 {
+					r.Hit("payout-to-fresh-owner")
+				}
 				if !may[Actor(a).String()] {
 					r.Violate("C15/recipients_legit/payout-to-unqualified-account", fmt.Sprintf("actor %d gained %s in `%s` without a qualifying lock or a launched rollapp with a gauge", a, gain[a], op), t.replay()...)
 				}
@@ -852,8 +920,8 @@ func (t *c15Trace) monitors(fl []string, class string, pre c15Snap, preLocks []l
 			sort.Strings(ps)
 			port[a] = strings.Join(ps, ";")
 		}
-		for a := 0; a < c15NA; a++ {
-			for b := a + 1; b < c15NA; b++ {
+		for i, a := range accts {
+			for _, b := range accts[i+1:] {
 				if port[a] == port[b] && !strings.Contains(port[a], "rollapp") && !gain[a].Equal(gain[b]) {
 					r.Violate("C15/recipients_legit/equal-locks-unequal-rewards", fmt.Sprintf("actors %d and %d hold identical locks [%s] but gained %s vs %s", a, b, port[a], gain[a], gain[b]), t.replay()...)
 				}
@@ -992,8 +1060,9 @@ func (t *c15Trace) proportional(op string, pre, post c15Snap, preLocks []lockupt
 		}
 		return out, len(q)
 	}
+	accts := t.w.accts()
 	actorOf := func(addr string) string {
-		for a := 0; a < c15NA; a++ {
+		for _, a := range accts {
 			if Actor(a).String() == addr {
 				return fmt.Sprintf("actor %d", a)
 			}
@@ -1010,7 +1079,7 @@ func (t *c15Trace) proportional(op string, pre, post c15Snap, preLocks []lockupt
 		}
 	}
 	reconciled := true
-	for a := 0; a < c15NA; a++ {
+	for _, a := range accts {
 		if !post.bal[a].IsAllGTE(pre.bal[a]) || !c15Only(seen[Actor(a).String()]).Equal(post.bal[a].Sub(pre.bal[a]...)) {
 			reconciled = false
 		}
@@ -1027,6 +1096,23 @@ func (t *c15Trace) proportional(op string, pre, post c15Snap, preLocks []lockupt
 	distributedInOp := map[uint64]bool{}
 	for _, b := range batches {
 		r.Hit("proportional/distribute-call")
+		// C12: recipients of ONE call that have no x/auth account yet get their account numbers in payment order
+		nNew := 0
+		for to := range b.paid {
+			if t.noAcct[to] {
+				nNew++
+				delete(t.noAcct, to)
+			}
+		}
+		if nNew >= 2 {
+			r.Hit("distribute-call/several-accountless-recipients")
+			if nNew >= 4 {
+				r.Hit("distribute-call/4+-accountless-recipients")
+			}
+			if len(b.paid) > nNew {
+				r.Hit("distribute-call/accountless-and-existing-recipients")
+			}
+		}
 		expect := map[string]sdk.Coins{}
 		qualifies := map[string]bool{} // owners of a lock qualifying for an asset gauge that distributed in this call
 		var assets []inctypes.Gauge
@@ -1165,8 +1251,77 @@ type c15Gen struct {
 	nonperp  []int
 	nStreams int
 	nRoll    int
+	nFresh   int   // fresh addresses handed out so far (the next one is c15Fresh0 + nFresh)
+	rgauges  []int // ids of rollapp gauges
 	lockIDs  []uint64
 	inBlock  bool
+}
+
+// freshOwners: every rollapp (most of them) is handed to a never-seen, account-less address through the real
+// MsgTransferOwnership, and the rollapp gauges are funded in the same block — directly (paid at the incentives
+// epoch end) or by a stream (paid by the streamer's EndBlock / epoch end) — so that ONE Distribute call pays
+// several recipients whose x/auth accounts are created by that payment.  grow > 0: first bring the number of
+// rollapps with a gauge up to grow.
+func (x *c15Gen) freshOwners(grow int) bool {
+	g := x.g
+	for x.nRoll < grow {
+		rr := x.nRoll
+		x.nRoll++
+		if !x.do(fmt.Sprintf("rollapp %d %d 1", rr, g.Intn(c15NA))) || !x.do(fmt.Sprintf("rgauge %d", rr)) {
+			return false
+		}
+	}
+	x.sync()
+	if x.nRoll == 0 || len(x.rgauges) == 0 {
+		return true
+	}
+	x.t.r.Hit("shape/fresh-rollapp-owners")
+	for rr := 0; rr < x.nRoll; rr++ {
+		if g.Chance(85) {
+			a := c15Fresh0 + x.nFresh
+			x.nFresh++
+			if !x.do(fmt.Sprintf("xferowner %d %d", rr, a)) {
+				return false
+			}
+		}
+	}
+	small := func() string { return strconv.Itoa(1 + g.Intn(100000)) }
+	if g.Chance(35) {
+		// direct top-ups (the funder needs reward coins)
+		funder := g.Intn(c15NA)
+		if !x.do(fmt.Sprintf("fund %d 100000000,100000000", funder)) {
+			return false
+		}
+		for _, id := range x.rgauges {
+			if !x.do(fmt.Sprintf("addgauge %d %d %s,%s", funder, id, small(), []string{"0", small()}[g.Intn(2)])) {
+				return false
+			}
+		}
+		return true
+	}
+	// one stream over all rollapp gauges (and sometimes an asset gauge, whose lock owners have accounts)
+	ids := append([]int(nil), x.rgauges...)
+	for _, id := range x.perp {
+		isR := false
+		for _, r := range x.rgauges {
+			isR = isR || r == id
+		}
+		if !isR && g.Chance(30) {
+			ids = append(ids, id)
+		}
+	}
+	sort.Ints(ids)
+	parts := []string{}
+	for _, id := range ids {
+		parts = append(parts, fmt.Sprintf("%d:%d", id, 1+g.Intn(3)))
+	}
+	coins := fmt.Sprintf("%d,%d", 1000*len(ids)+g.Intn(1000000), []int{0, 7, 100000}[g.Intn(3)])
+	if !x.do("fund 100 " + coins) {
+		return false
+	}
+	ok := x.do(fmt.Sprintf("mkstream %s %s %d %d %d", coins, strings.Join(parts, ","), x.now(), []int{1, 1, 1, 0, 2}[g.Intn(5)], 1+g.Intn(3)))
+	x.sync()
+	return ok
 }
 
 func (x *c15Gen) amount() string {
@@ -1463,6 +1618,11 @@ func (x *c15Gen) txOp() bool {
 				x.t.r.Hit("perturb/xferowner-blocked")
 				return x.do(fmt.Sprintf("xferowner %d 102", rr))
 			}
+			if g.Chance(25) {
+				a := c15Fresh0 + x.nFresh
+				x.nFresh++
+				return x.do(fmt.Sprintf("xferowner %d %d", rr, a))
+			}
 			return x.do(fmt.Sprintf("rollapp %d %d %s", rr, owner, c15b(g.Chance(75))))
 		}
 		if perturb && g.Chance(30) {
@@ -1488,6 +1648,11 @@ func (x *c15Gen) txOp() bool {
 			return x.do("fund 100 " + x.coins(false))
 		}
 		return x.do(fmt.Sprintf("fund %d %s", g.Intn(c15NA), x.coins(false)))
+	case 14: // the rollapps change hands to never-seen addresses and their gauges are funded
+		if g.Chance(60) {
+			return x.freshOwners(0)
+		}
+		return true
 	default:
 		return true
 	}
@@ -1505,8 +1670,11 @@ func (x *c15Gen) sync() {
 	f := x.t.w.f
 	gs := f.App.IncentivesKeeper.GetGauges(f.Ctx)
 	x.nGauges = len(gs)
-	x.perp, x.nonperp = nil, nil
+	x.perp, x.nonperp, x.rgauges = nil, nil, nil
 	for _, g := range gs {
+		if g.GetRollapp() != nil {
+			x.rgauges = append(x.rgauges, int(g.Id))
+		}
 		if g.IsPerpetual {
 			x.perp = append(x.perp, int(g.Id))
 		} else {
@@ -1515,6 +1683,7 @@ func (x *c15Gen) sync() {
 	}
 	sort.Ints(x.perp)
 	sort.Ints(x.nonperp)
+	sort.Ints(x.rgauges)
 	x.nStreams = int(f.App.StreamerKeeper.GetLastStreamID(f.Ctx))
 	ls, _ := f.App.LockupKeeper.GetPeriodLocks(f.Ctx)
 	x.lockIDs = nil
@@ -1592,6 +1761,15 @@ func c15RandomTrace(r *Run, g *Rng) {
 			x.sync()
 		}
 		if !x.do("end") {
+			return
+		}
+	}
+	// often: several rollapps with gauges whose owners are never-seen addresses, funded in one block
+	if g.Chance(55) {
+		if !x.do(fmt.Sprintf("begin %d", 1+g.Intn(100))) {
+			return
+		}
+		if !x.freshOwners(2+g.Intn(7)) || !x.do("end") {
 			return
 		}
 	}
@@ -1750,6 +1928,52 @@ var c15Witnesses = map[string][]string{
 		"mkstream 3000,0 1:1,2:1,3:1 NOW 0 2",
 		"begin 3601", "end", "begin 10", "end", "begin 10", "end", "begin 86401", "end",
 	},
+}
+
+// C12 shapes: ONE Distribute call pays several recipients that have no x/auth account yet (never-seen
+// addresses that became rollapp owners through MsgTransferOwnership), so the order of the payments decides
+// the account numbers.  Run first on every run (also the smallest, VERIF_SCALE'd one).
+func init() {
+	rep := func(n int, f func(r int) []string) (out []string) {
+		for r := 0; r < n; r++ {
+			out = append(out, f(r)...)
+		}
+		return out
+	}
+	cat := func(xs ...[]string) (out []string) {
+		for _, x := range xs {
+			out = append(out, x...)
+		}
+		return out
+	}
+	mk := func(n int) []string {
+		return rep(n, func(r int) []string { return []string{fmt.Sprintf("rollapp %d %d 1", r, r%c15NA), fmt.Sprintf("rgauge %d", r)} })
+	}
+	xfer := func(n, base int) []string {
+		return rep(n, func(r int) []string { return []string{fmt.Sprintf("xferowner %d %d", r, base+r)} })
+	}
+	recs := func(from, n int) string {
+		p := []string{}
+		for i := 0; i < n; i++ {
+			p = append(p, fmt.Sprintf("%d:%d", from+i, 1+i%3))
+		}
+		return strings.Join(p, ",")
+	}
+	// a stream over 8 rollapp gauges, all served by one EndBlock: 8 account-less owners per epoch, new owners every epoch
+	c15Witnesses["fresh-owners-streamed"] = cat([]string{"begin 1", "end"}, mk(8), xfer(8, 200),
+		[]string{"fund 100 90000,24", "mkstream 90000,24 " + recs(1, 8) + " NOW 1 3", "begin 3601", "end", "begin 3601", "end"},
+		xfer(8, 210), []string{"begin 3601", "end"}, xfer(8, 220), []string{"begin 3601", "end", "begin 10", "end"})
+	// the same paged three pairs per block: 3 + 3 + 2 account-less owners per call; the rest of an epoch is served at its end
+	c15Witnesses["fresh-owners-paged"] = cat([]string{"maxiter 3", "begin 1", "end"}, mk(8), xfer(8, 200),
+		[]string{"fund 100 90000,0", "mkstream 90000,0 " + recs(1, 8) + " NOW 1 3", "begin 3601", "end", "begin 3601", "end", "begin 10", "end", "begin 10", "end"},
+		xfer(8, 210), []string{"begin 3601", "end", "begin 10", "end"}, xfer(8, 220), []string{"begin 3601", "end", "begin 3601", "end"})
+	// incentives epoch end: an asset gauge (lock owners, accounts exist) and 6 directly funded rollapp gauges with account-less owners
+	top := func(n, amt int) []string {
+		return rep(n, func(r int) []string { return []string{fmt.Sprintf("addgauge 0 %d %d,%d", 2+r, amt+r, r%2*7)} })
+	}
+	c15Witnesses["fresh-owners-epoch-end"] = cat([]string{"begin 1", "end", "fund 0 1000000,1000000",
+		"mkgauge 0 1 0 3600 7000,30 NOW 1", "lock 1 0 100 3600", "lock 2 0 300 25200"}, mk(6), xfer(6, 200), top(6, 1000),
+		[]string{"begin 604801", "end", "begin 10", "end"}, xfer(6, 210), top(6, 500), []string{"addgauge 0 1 900,0", "begin 604801", "end", "begin 10", "end"})
 }
 
 func c15RunWitness(r *Run, name string) {
